@@ -123,7 +123,11 @@ func WConfig(prop, tier string) *Config {
 	// every op followed by a message that fails (the whole transaction must roll back), then an empty block
 	if set, ok := multiMsgSets[prop]; ok {
 		tp := txPairs(set)
-		cfg.Phases = append(cfg.Phases, Phase{Name: "multi-msg-tx-depth2", Roots: []string{"R1"}, Ops: append(append([]string{}, tp...), "empty", "gap_1d"), First: tp, Second: []string{"empty", "gap_1d"}, Depth: 2, Dev: 4})
+		second := []string{"empty", "gap_1d"}
+		if prop == "C20" {
+			second = []string{"empty", "ts_execute_each_bot", "ts_cancel_all_by_own1"}
+		}
+		cfg.Phases = append(cfg.Phases, Phase{Name: "multi-msg-tx-depth2", Roots: []string{"R1"}, Ops: append(append([]string{}, tp...), second...), First: tp, Second: second, Depth: 2, Dev: 4})
 	}
 	if tier != "thorough" {
 		return devOnlyPhase(cfg)
